@@ -245,7 +245,9 @@ def _validate_key(kind, msg, flags, read_key):
         return None                      # the reader's failure, already reported under its own key
     if flags["emptyreaction"] and ("neither reactants nor products" in msg or "<speciesReference>" in msg):
         return "sbml:empty-reaction-invalid"
-    if flags["noobjective"] and ("listOfFluxObjectives" in msg or "No objective coefficients" in msg or "objective" in msg.lower()):
+    if flags["noobjective"] and kind.startswith("COBRA") and "No objective coefficients in model" in msg:
+        return None                      # true of the model, not a defect of the document (and not the SBML validator's word)
+    if flags["noobjective"] and ("listOfFluxObjectives" in msg or "objective" in msg.lower()):
         return "sbml:no-objective-invalid"
     return "sbml:validate"
 
